@@ -42,7 +42,7 @@ def near_probes(lru):
 
 class Check(HCheck):
     pid = ID
-    owned = ("page", "pages", "links", "crawl", "create", "addprefix", "rmprefix", "rule")
+    owned = ("page", "pages", "links", "crawl", "create", "addprefix", "rmprefix", "rule", "clear", "reopen")
     must_count = ("located_multiblock", "probe_absent", "probe_present", "raw_decoded_with_tails")
 
     def spaces(self, tier):
@@ -62,6 +62,13 @@ class Check(HCheck):
         # all insertion orders of sibling stems sharing one 74-byte head (BST shapes decided in the tail)
         sib = al.long_lrus((75, 76, 148, 149, 150, 223) if thorough else (75, 76, 148, 149, 223))
         sp.append(Space(Cfg("never"), [al.page(u) for u in sib], 6 if thorough else 5, name="long/orders"))
+        odd = [A + x for x in (b"\x00|", b"\xff\xfe|", b"p|", b"{|", b"}|", b"p:x\x00|", b"p:x|", b"p:xx|")]
+        sp.append(Space(Cfg("never"), [al.page(u) for u in (odd if thorough else odd[:7])] + [al.links((odd[0], odd[1] + b"\x80|"))], 5 if thorough else 4, name="short/bytes"))
+        # long stems of equal length but different tails, around clear / reopen (block offsets are
+        # handed out again after a clear): every sequence, no merging
+        la, lb, lc = A + L.long_stem(75, b"a"), A + L.long_stem(75, b"b"), A + L.long_stem(149, b"c")
+        life = [al.page(la), al.page(lb, True), al.page(lc), al.links((lb, la)), al.OBS, al.clear("never", {}), al.REOPEN]
+        sp.append(Space(Cfg("never"), life, 5 if thorough else 4, name="lifecycle/long", dedup=False))
         # U-core with webentity prefixes and rule anchors (automatic variations become locatable)
         cops = [al.page(Ax), al.page(Axy, True), al.page(Ab), al.page(Aw), al.page(Sx), al.page(Bb), al.create(C1), al.addprefix(Az, 0), al.rmprefix(A + b"p:q|"), al.rule(Ax, "path2"), al.links((Az, Bb)), al.move(Ab, 0)]
         sp.append(Space(Cfg("domain"), cops, 4 if thorough else 3, name="core/domain"))
